@@ -736,15 +736,22 @@ fn refresh_coordinate_keys(
 
                 // Add the most recent secrets from the MSK that do not belong
                 // to the USK at the front of the updated chain (cf Invariant.1)
+                let mut is_first_secret_in_msk = false;
                 for (_, msk_secret) in msk_secrets.by_ref() {
                     if msk_secret == &first_secret {
+                        is_first_secret_in_msk = true;
                         break;
                     }
                     updated_chain.push_back(msk_secret.clone());
                 }
 
                 // Push the first USK secret since it was consumed from the USK
-                // chain iterator.
+                // chain iterator, unless it has been removed from the MSK (cf
+                // Invariant.2), in which case no older USK secret can belong
+                // to the MSK either.
+                if !is_first_secret_in_msk {
+                    return Some((coordinate, updated_chain));
+                }
                 updated_chain.push_back(first_secret);
 
                 // Push the secrets already stored in the USK that also belong
